@@ -7,8 +7,7 @@ hypotheses of the `_partial` theorems of EPV/Props/C07.lean and are printed by t
   F07            helpers.numeric_equal / Float.__eq__: `math.isclose(rel_tol=1e-7)` tolerance
   F07-promotion  numeric operands of different types compared without (or with another) promotion
   F07-lenient    general comparison of a pair that is incomparable by XPath §3.7.1: no XPTY0004
-  F07-untyped    xs:untypedAtomic conversion rules of §3.7.2 not followed
-  F07-qname      value comparison xs:string/xs:untypedAtomic with xs:QName accepted
+  F07-untyped    xs:untypedAtomic against decimal / float / anyURI: conversion rules of §3.7.2 not followed
   F07-compat     XPath 1.0 / compatibility-mode rules (XPath 2.0 §3.5.2, XPath 1.0 §3.4) not followed
 -/
 import EPV.Spec.FOCompare
@@ -72,23 +71,15 @@ def trigLenient (m : Mode) (op : Op) (a b : Atom) : Bool :=
 
 def isTemporal (a : Atom) : Bool := a.isDT || a.isDur
 
-/-- F07-untyped: (i) two untypedAtomic operands of an ordering operator are compared as doubles;
-(ii) a date/time/duration *left* operand never casts the untyped right operand;
-(iii) untypedAtomic against xs:decimal goes through `Decimal(str)`, exact and raising
-decimal.InvalidOperation; (iv) an xs:anyURI left operand compares the raw untyped string (no white-space collapse);
-(v) untypedAtomic against xs:float is clamped to the binary32 range by Float.make -/
-def trigUntyped (op : Op) (a b : Atom) : Bool :=
+/-- F07-untyped: (i) untypedAtomic against xs:decimal goes through `Decimal(str)`, exact and raising
+decimal.InvalidOperation; (ii) untypedAtomic against xs:float is clamped to the binary32 range by
+`Float.make`; (iii) an xs:anyURI left operand compares the raw untyped string (no white-space collapse) -/
+def trigUntyped (_op : Op) (a b : Atom) : Bool :=
   match a, b with
-  | .ua _, .ua _ => op.isOrd
   | .ua _, .dec _ | .dec _, .ua _ => true
-  | .ua _, .flt _ | .flt _, .ua _ => true       -- Float.make clamps to the binary32 range, double otherwise
-  | .uri _, .ua t => decide (strip t ≠ t)         -- AnyURI.__lt__/__eq__ read the raw untyped string
-  | _, .ua _ => isTemporal a
+  | .ua _, .flt _ | .flt _, .ua _ => true
+  | .uri _, .ua t => decide (strip t ≠ t)
   | _, _ => false
-
-/-- F07-qname -/
-def trigQName (op : Op) (a b : Atom) : Bool :=
-  op.isEqNe && ((isQN a && (isStr b || isUA b)) || ((isStr a || isUA a) && isQN b))
 
 /-! ### compatibility mode -/
 
@@ -149,8 +140,7 @@ def trigValue (m : Mode) (op : Op) (L Rr : List Item) : List String :=
     let a := atomize m x
     let b := atomize m y
     (if trigTol true op a b then ["F07"] else []) ++
-    (if trigPromotion true a b then ["F07-promotion"] else []) ++
-    (if trigQName op a b then ["F07-qname"] else [])
+    (if trigPromotion true a b then ["F07-promotion"] else [])
   | _, _ => []
 
 end EPV.CmpFind
